@@ -289,6 +289,17 @@ func runTargeters(tt *testing.T, tape *simrt.Tape, keep bool) (out simrt.Outcome
 			}
 			ar := acts[0]
 			if !forced {
+				// lock waiters get on only once the holder has moved; while it is parked (and so among the other
+				// candidates) releasing them burns steps: they are drawn one time in eight
+				var others []*simrt.Arrival
+				for _, a := range acts {
+					if a.Kind != simrt.KLockWait {
+						others = append(others, a)
+					}
+				}
+				if len(others) > 0 && len(others) < len(acts) && !tape.Prob(1, 8) {
+					acts = others
+				}
 				ar = acts[tape.Choose(len(acts))]
 			}
 			lastRel = w.Step
@@ -309,7 +320,11 @@ func runTargeters(tt *testing.T, tape *simrt.Tape, keep bool) (out simrt.Outcome
 			}
 		}
 		// ---- history checks at quiescence ----
-		if viol == nil {
+		if viol == nil && len(cur) > 0 {
+			// the step budget ran out with calls in progress (a standstill is reported above): nothing is concluded
+			stats["skipped.step-budget-exhausted"]++
+			w.Log.Addf("step budget exhausted with %d calls in progress", len(cur))
+		} else if viol == nil {
 			counts := make([]int, ntargets)
 			exhausted := 0
 			for _, c := range calls {
